@@ -157,7 +157,7 @@ TG_EXTRA += [("appendtg", f) for f in (True, False)]
 TG_EXTRA += [("merge", sel, p) for sel in (None, "first2", "absent") for p in (True, False)]
 TG_EXTRA += [("new",), ("validate", "silence"), ("validate", "error"), ("validate", "bogus"), ("eq",), ("getTier", "zz")]
 TG_EXTRA += [("save", f, b) for f in ("short_textgrid", "long_textgrid", "json", "textgrid_json") for b in (True, False)]
-TG_EXTRA += [("badadd", "bogus-mode"), ("badrep", "bogus-mode"), ("badadd", "bad-index-type")]
+TG_EXTRA += [("badadd", "bogus-mode"), ("badrep", "bogus-mode"), ("badadd", "bad-index-type"), ("badrep", "a-member-under-another-name"), ("badrep", "added-member-again")]
 TG_EXTRA = tuple(TG_EXTRA)
 
 
@@ -195,6 +195,12 @@ def _tg_extra(tg, op, other):
     if k == "badrep":
         if not tg.tierNames:
             return None
+        if op[1] == "a-member-under-another-name":      # the new tier is an OBJECT the textgrid already holds under another name: refused (name clash), nothing lost
+            if len(tg.tierNames) < 2:
+                return None
+            return tg.replaceTier(tg.tierNames[0], tg.getTier(tg.tierNames[-1]))
+        if op[1] == "added-member-again":
+            return tg.addTier(tg.getTier(tg.tierNames[-1]))
         return tg.replaceTier(tg.tierNames[0], c12.slot_tier(0, tg.tierNames[0]), "bogus")
     raise ValueError(op)
 
